@@ -2,6 +2,7 @@
 mod common;
 mod run;
 mod c13;
+mod c15;
 mod c18;
 
 fn main() {
@@ -15,6 +16,7 @@ fn main() {
     match sub {
         "run" => run::main(&rest),
         "c13" => c13::main(&rest),
+        "c15" => c15::main(&rest),
         "c18" => c18::main(&rest),
         "c18one" => {
             let spec = rest.first().cloned().unwrap_or_default();
